@@ -63,6 +63,18 @@ class FuncRef:
 
 
 @dataclass
+class PolyMethod:
+    value: Any
+    name: str
+
+
+@dataclass
+class StrMethod:
+    value: str
+    name: str
+
+
+@dataclass
 class External:
     name: str
 
@@ -79,11 +91,19 @@ class _Return(Exception):
         self.value = value
 
 
+# in-package helpers interpreted by their contract rather than their body
+SUMMARISED = {'furax.tree.as_promoted_dtype'}
+
+
 class Interp:
     def __init__(self, world: World, table: ClassTable):
         self.world = world
         self.table = table
         self.depth = 0
+        # sites where several components were passed through a helper that promotes all leaves to one dtype
+        self.promotions: list[str] = []
+        # sites where a parameter-derived coefficient (cos/sin of the angles, ...) is converted to the dtype of the data
+        self.coefficient_casts: list[str] = []
 
     # -------------------------------------------------------------- helpers
     def stokes_classes(self) -> list[ClassInfo]:
@@ -260,6 +280,8 @@ class Interp:
             return False
         if isinstance(v, (SymObj, Rec, Chain)):
             return True
+        if isinstance(v, (list, tuple, dict, str)):
+            return len(v) > 0
         raise Incomplete(site(node), f'branch condition not decidable statically: {ast.unparse(node)[:60]}')
 
     # -------------------------------------------------------------- expressions
@@ -318,6 +340,8 @@ class Interp:
                 return (l is r) if isinstance(op, ast.Is) else (l is not r)
             if isinstance(op, (ast.In, ast.NotIn)) and isinstance(l, str) and isinstance(r, (tuple, list)) and all(isinstance(x, str) for x in r):
                 return (l in r) if isinstance(op, ast.In) else (l not in r)
+            if isinstance(op, (ast.In, ast.NotIn)) and isinstance(l, str) and isinstance(r, str):
+                return (l in r) if isinstance(op, ast.In) else (l not in r)
             if isinstance(op, (ast.Eq, ast.NotEq)):
                 if isinstance(l, str) and isinstance(r, str):
                     return (l == r) if isinstance(op, ast.Eq) else (l != r)
@@ -343,6 +367,8 @@ class Interp:
             return Opaque(f'subscript {ast.unparse(e)[:40]}')
         if isinstance(e, ast.Lambda):
             return FuncRef(e)
+        if isinstance(e, (ast.GeneratorExp, ast.ListComp)):
+            return self._comprehension(e, 0, env)
         if isinstance(e, ast.Dict):
             out_d = {}
             for k, v in zip(e.keys, e.values):
@@ -357,6 +383,24 @@ class Interp:
             return Opaque('f-string')
         return Opaque(ast.unparse(e)[:60])
 
+    def _comprehension(self, e: ast.AST, level: int, env: dict[str, Any]) -> list[Any]:
+        gens = e.generators  # type: ignore[attr-defined]
+        if level == len(gens):
+            return [self.eval(e.elt, env)]  # type: ignore[attr-defined]
+        g = gens[level]
+        seq = self.eval(g.iter, env)
+        if isinstance(seq, dict):
+            seq = list(seq)
+        if not isinstance(seq, (list, tuple, str)):
+            raise Incomplete(site(e), 'comprehension over a value that is not a concrete sequence')
+        out: list[Any] = []
+        for item in seq:
+            inner = dict(env)
+            self.assign(g.target, item, inner)
+            if all(self.truth(self.eval(c, inner), c) for c in g.ifs):
+                out.extend(self._comprehension(e, level + 1, inner))
+        return out
+
     def global_name(self, e: ast.Name, env: dict[str, Any]) -> Any:
         module = module_of(e)
         q = self.world.qualify(module, e.id)
@@ -365,13 +409,15 @@ class Interp:
             if cls is not None:
                 return ClassRef(cls)
             node = self.world.lookup(q)
+            if q in SUMMARISED:
+                return External(q)
             if isinstance(node, ast.FunctionDef):
                 return FuncRef(node)
             if isinstance(node, ast.Assign):
                 return self.eval(node.value, {})
             if q != e.id or e.id in module.imports:
                 return External(q)
-        if e.id in ('isinstance', 'len', 'super', 'type', 'tuple', 'list', 'float', 'int', 'sorted', 'str'):
+        if e.id in ('isinstance', 'len', 'super', 'type', 'tuple', 'list', 'float', 'int', 'sorted', 'str', 'getattr'):
             return External(e.id)
         if e.id == 'NotImplemented':
             return Opaque('NotImplemented')
@@ -383,6 +429,9 @@ class Interp:
                 return base.comps[attr]
             if attr in ('shape', 'dtype', 'structure'):
                 return Opaque(f'record.{attr}')
+            value, _owner = self.table.class_attr(base.cls, attr)
+            if isinstance(value, ast.Constant) and isinstance(value.value, str):
+                return value.value
             raise Incomplete(site(node), f'{base.cls.name} has no component {attr}')
         if isinstance(base, SymObj):
             if attr in base.attrs:
@@ -410,9 +459,17 @@ class Interp:
             return External(f'{base.name}.{attr}')
         if isinstance(base, Opaque):
             return Opaque(f'{base.what}.{attr}')
+        if isinstance(base, str) and attr in ('lower', 'upper', 'join'):
+            return StrMethod(base, attr)
         if isinstance(base, Poly):
-            if attr in ('shape', 'dtype', 'ndim', 'size'):
+            if attr == 'dtype':
+                atoms = base.atoms()
+                data = bool(atoms) and all(isinstance(a, tuple) and a and a[0] == 'in' for a in atoms)
+                return Opaque('data.dtype' if data else 'array.dtype')
+            if attr in ('shape', 'ndim', 'size'):
                 return Opaque(f'array.{attr}')
+            if attr == 'astype':
+                return PolyMethod(base, 'astype')
         raise Incomplete(site(node), f'attribute {attr} of {type(base).__name__}')
 
     def binop(self, e: ast.BinOp, l: Any, r: Any) -> Any:
@@ -479,6 +536,14 @@ class Interp:
         if isinstance(fv, FuncRef):
             pre = [fv.self_obj] if fv.self_obj is not None else []
             return self.call_function(fv.node, pre + args, kwargs, owner=fv.cls)
+        if isinstance(fv, PolyMethod) and fv.name == 'astype' and len(args) + len(kwargs) == 1:
+            return self._astype(fv.value, (args + list(kwargs.values()))[0], e)
+        if isinstance(fv, StrMethod):
+            if fv.name in ('lower', 'upper') and not args:
+                return getattr(fv.value, fv.name)()
+            if fv.name == 'join' and len(args) == 1 and isinstance(args[0], (list, tuple)) and all(isinstance(x, str) for x in args[0]):
+                return fv.value.join(args[0])
+            raise Incomplete(site(e), f'str.{fv.name} on these arguments')
         if isinstance(fv, External):
             return self.external(fv.name, args, kwargs, e, env)
         if isinstance(fv, SymObj):
@@ -487,6 +552,15 @@ class Interp:
         if isinstance(fv, Opaque):
             return Opaque(f'{fv.what}(...)')
         raise Incomplete(site(e), f'call of {type(fv).__name__}')
+
+    def _astype(self, value: Any, dtype: Any, e: ast.AST) -> Any:
+        """Conversions are the identity on exact values; converting a parameter-derived coefficient to the dtype of the
+        data is recorded (it truncates for integer data)."""
+        if isinstance(value, Poly) and isinstance(dtype, Opaque) and dtype.what == 'data.dtype':
+            atoms = value.atoms()
+            if any(not (isinstance(a, tuple) and a and a[0] == 'in') for a in atoms):
+                self.coefficient_casts.append(site(e))
+        return value
 
     def _args(self, e: ast.Call, env: dict[str, Any]) -> tuple[list[Any], dict[str, Any]]:
         args: list[Any] = []
@@ -530,8 +604,26 @@ class Interp:
             except NotPolynomial as exc:
                 raise Incomplete(site(e), str(exc)) from exc
         if name in ('jax.numpy.array', 'jax.numpy.asarray', 'numpy.array', 'numpy.asarray', 'jax.numpy.stack'):
+            if 'dtype' in kwargs or (len(args) > 1 and name.endswith('array')):
+                return self._astype(args[0], kwargs.get('dtype', args[1] if len(args) > 1 else None), e)
             return args[0]
-        if name == 'len' and isinstance(args[0], (list, tuple, str)):
+        if name in ('jax.numpy.astype', 'jax.lax.convert_element_type') and len(args) == 2:
+            return self._astype(args[0], args[1], e)
+        if name == 'getattr' and len(args) >= 2 and isinstance(args[1], str):
+            try:
+                return self.getattr(args[0], args[1], e)
+            except Incomplete:
+                if len(args) == 3:
+                    return args[2]
+                raise
+        if name == 'sorted' and len(args) == 1 and not kwargs and isinstance(args[0], (list, tuple, dict, str)) and all(isinstance(x, str) for x in args[0]):
+            return sorted(args[0])
+        if name in ('furax.tree.as_promoted_dtype', 'furax.as_promoted_dtype'):
+            leaves = list(args[0]) if isinstance(args[0], (list, tuple)) else [args[0]]
+            if len(leaves) > 1:
+                self.promotions.append(site(e))
+            return args[0]
+        if name == 'len' and isinstance(args[0], (list, tuple, str, dict)):
             return Poly.const(len(args[0]))
         if name in ('typing.get_args', 'typing_extensions.get_args') and isinstance(args[0], tuple):
             return args[0]
@@ -568,3 +660,7 @@ def value_matrix(interp: Interp, value: Any, in_rec: Rec, what: str) -> Matrix:
 
 class NonLinear(Exception):
     pass
+
+
+class LossyCoefficient(NonLinear):
+    """A parameter-derived coefficient is converted to the dtype of the data before it is applied."""
